@@ -1,10 +1,10 @@
 package main
 
 import (
-	"go/printer"
 	"encoding/json"
 	"fmt"
 	"go/ast"
+	"go/printer"
 	"go/token"
 	"go/types"
 	"os"
@@ -165,6 +165,9 @@ func loadProg(repo string, overlayRoot string) *Prog {
 		}
 	}
 	p.normalise()
+	if os.Getenv("VERIF_NO_NORMALISE") == "" {
+		p.splitTuples()
+	}
 	for _, l := range normaliseLog {
 		fmt.Println("normalise:", l)
 	}
